@@ -221,6 +221,8 @@ func (x *Exec) mergeOutcomes(outs []Outcome, base *pcNode) []Outcome {
 			if !ok {
 				if len(k) > 7 && k[:7] == "ncalls:" {
 					t = BVLit64(0, 64)
+				} else if len(k) > 5 && k[:5] == "lock:" {
+					t = IntLit(0)
 				} else {
 					return outs
 				}
